@@ -33,6 +33,18 @@ def gen(rng, tier, k):
     from rv.gen import charts
 
     spec = charts.gen_spec(rng, n=rng.choice([0, 1, 3, 6, 12]))
+    if rng.random() < 0.25:
+        # late in a long chart: an edit by 1 ms is tiny relative to the values it changes
+        base = rng.choice([100000.0, 600000.0, 3600000.0])
+        for ch in spec["charts"]:
+            for key in ("hits", "holds", "bpms", "svs", "samples"):
+                for row in ch.get(key, []):
+                    row[0] += base
+            for rows_ in ch.get("extra", {}).values():
+                for row in rows_:
+                    row[0] += base
+        if "offset" in spec.get("meta", {}):
+            spec["meta"]["offset"] += base
     game = spec["game"]
     hist = charts.gen_history(rng, allowed=["filter_mask", "sorted", "shuffle", "stack_noop", "append_split", "reverse"]) if rng.random() < 0.6 else []
     cols = NUMERIC + GAME_COLS[game]
@@ -42,7 +54,7 @@ def gen(rng, tier, k):
         restack = rng.random() < 0.4
         if r < 0.4:
             c = rng.choice(cols)
-            ops.append(dict(kind="col_arith", col=c, opr=rng.choice("+-*/"), v=rng.choice([1, 2, 3, 0.5, 1.5, 100, -7]), restack=restack))
+            ops.append(dict(kind="col_arith", col=c, opr=rng.choice("+-*/"), v=rng.choice([1, 2, 3, 0.5, 1.5, 100, -7, 1.000005, 1e-3, 0.25]), restack=restack))
         elif r < 0.5:
             ops.append(dict(kind="col_scalar", col=rng.choice(cols), v=rng.choice([0, 1, 5.5, 120]), restack=restack))
         elif r < 0.6:
